@@ -9,6 +9,10 @@ Case  c18.bf      payload [alts, rankings, mults, ks]
    Judge = the model's  brute_force_ok  (second sentence of the property; theorem brute_force_ok_correct) evaluated for
    every (k, result) with the verified optimum min_partition:  optimum <= k -> a partition passing partition_check
    with exactly `optimum` axes;  optimum > k -> None.
+Every c18.bf case is also compared with the MIRROR of the (repaired) brute force, c18.bf_algo (Model/PartitionAlgo.v): same
+None-ness and same number of axes for every k; equality of the returned partition is only counted.  The mirror is run
+with the order in which CPython iterates the L-sets (observed by calling /repo's get_L_sets in the worker) as its order
+parameter.  Case c18.algo (m = 9..14): implementation against the mirror only.
 rankings : flat strict complete rankings (distinct), storage order; mults : multiplicities (>= 1).
 Defect KF-C18-a (from m = 6 on the brute force was not minimum: pairs only inside one L-set) was found by this check and
 repaired in /repo by 175f7ec; its 77 failing inputs are kept in corpus/C18/fixed-175f7ec-bruteforce-not-minimum.json."""
@@ -25,7 +29,8 @@ RULE = ("approx (seed-dependent): exhaustive small sets (below); random / plante
         "brute force, every k in 1..m+1: m <= 5 exhaustive (below) + seed-dependent random/planted/cyclic (n <= 4, cyclic "
         "n <= m), m = 1 and m = 2 included; m >= 6: a fixed core of 3 000 profiles (constant seed) + regression profiles + "
         "10 000 (thorough 23 000) seed-dependent profiles, m = 6-8 (thorough 6-9), odd and even m; the corpus (77 inputs of "
-        "the repaired defect KF-C18-a, the cap defect 07cd506) runs first. "
+        "the repaired defect KF-C18-a, the cap defect 07cd506) runs first; every brute-force case is also compared with "
+        "the mirror bf_algo, and 150 (thorough 1 200) seed-dependent profiles with m = 9-13 (thorough 9-14) with the mirror only. "
         "non-trivial = reference optimum >= 2 axes")
 EXHAUSTIVE = {"quick": "both functions: all sets of 1-2 distinct strict orders over m<=3, with the ids 1..m and with the ids 0..m-1; brute force: every set of <= 3 strict "
                        "orders over m = 4 and m = 5 containing the identity ranking (= every profile of <= 3 orders up to "
@@ -37,7 +42,12 @@ TRUSTED = ["(R) not verified, compared with the verified reference min_partition
            "through the verified checker partition_check at every size: k_alt_partition_approx, longest_single_peaked_axis "
            "(Erdelyi-Lackner-Pfandler dynamic programme: get_L_sets, eligible_alternatives, last_check, place, case_2, "
            "case_3, check_case_4, boundary), k_alternative_partition_brut_force (dfs, extend, "
-           "singleton_pair_combinations); termination only observed by the watchdog"]
+           "singleton_pair_combinations); termination only observed by the watchdog",
+           "k_alternative_partition_brut_force is additionally MIRRORED (Model/PartitionAlgo.v, bf_algo) and compared with "
+           "its mirror on every brute-force case (None-ness and number of axes; identical partitions counted in the "
+           "distribution): the mirror is proved sound for every size (bf_sound) but its minimality only on small domains "
+           "(bf_complete_min_partial_small), so minimality of the code rests on the comparison with min_partition; the "
+           "iteration order of the Python L-sets is observed in the worker and handed to the mirror as its order parameter"]
 ASSUMPTIONS = ["data_type = soc; every order ranks every alternative exactly once; >= 1 alternative, >= 1 order; orders "
                "distinct; k >= 1 (quantifier of C18)",
                "k_alternative_partition_brut_force returns ONE partition (a list of axes) or None - the docstring's "
@@ -46,9 +56,10 @@ ASSUMPTIONS = ["data_type = soc; every order ranks every alternative exactly onc
 COVER_FILES = ["properties/subdomains/ordinal/singlepeaked/k_alternative_partition.py",
                "properties/subdomains/ordinal/singlepeaked/k_alternative_deletion.py"]
 COVER_TIMEOUT_S = 60
-TIMEOUT_S = 30.0
-CHUNK = 8
-THEOREMS_FOR_OP = {"c18.approx": "partition_check_correct / check_valid_bound",
+TIMEOUT_S = 120.0
+CHUNK = 4
+THEOREMS_FOR_OP = {"c18.algo": "bf_sound / bf_complete_min (mirror Model/PartitionAlgo.v)",
+                   "c18.approx": "partition_check_correct / check_valid_bound",
                    "c18.bf": "brute_force_ok_correct / min_partition_correct / partition_check_correct"}
 REF_MAX_M = 8      # the reference optimum is run up to this size
 
@@ -262,6 +273,16 @@ def generate(tier, seed):
     merged.extend(det[j:])
     out[:] = merged
 
+    # ---- brute force against its MIRROR only (no reference optimum at these sizes): m = 9..13 (thorough 9..14)
+    for i in range(150 if not thorough else 1200):
+        m = rng.randint(9, 13 if not thorough else 14)
+        alts = rand_ids(rng, m)
+        votes, mults, style = mixed_votes(rng, i, m, alts)
+        c = bf_case(rand_perm(rng, alts), votes, mults, style=style)
+        c["op"] = "c18.algo"
+        c["payload"][3] = sorted({1, 2, 3, rng.randint(1, m), (m + 1) // 2, m + 1})
+        out.append(c)
+
     # ---- approx with the reference optimum (m <= REF_MAX_M), seed-dependent
     nref = 900 if not thorough else 7000
     mmax = 7 if not thorough else 8
@@ -341,6 +362,11 @@ def impl(c):
         return [0, ax]
     ks = c["payload"][3]
     res = []
+    # the order in which CPython iterates the L-sets (a hashing artefact): the order parameter of the mirror
+    from preflibtools.properties.subdomains.ordinal.singlepeaked.k_alternative_deletion import get_L_sets
+    uv = [vote for vote, _ in inst().flatten_strict()]
+    Lsets = get_L_sets(list(alts), uv)
+    hint = [int(a) for j in sorted(Lsets) for a in Lsets[j]]
     for k in ks:
         r = guarded(KP.k_alternative_partition_brut_force, inst(), k)
         if r[0] != 0:
@@ -352,7 +378,7 @@ def impl(c):
             if ax is None:
                 return {"crash": "k_alternative_partition_brut_force(k=%d) returned %r" % (k, r[1])}
             res.append([k, [ax]])
-    return [0, res]
+    return [0, res, hint]
 
 
 def oracle_requests(c, r):
@@ -365,8 +391,13 @@ def oracle_requests(c, r):
         if okr:
             reqs.append(("c18.check", [alts, rankings, r[1]]))
         return reqs
+    if c["op"] == "c18.algo":
+        if okr:
+            reqs.append(("c18.bf_algo", [alts, rankings, [k for k, _ in r[1]], r[2]]))
+        return reqs
     if okr:
         reqs.append(("c18.bf", [alts, rankings, r[1]]))
+        reqs.append(("c18.bf_algo", [alts, rankings, [k for k, _ in r[1]], r[2]]))
         seen = []
         for k, opt in r[1]:
             if opt and opt[0] not in seen:
@@ -394,12 +425,14 @@ def judge(c, r, mres):
                     "reason": "model: checker accepts %d axes but min_partition = %d (contradicts check_valid_bound)"
                               % (len(r[1]), mn)}
         return None
+    if c["op"] == "c18.algo":
+        return judge_mirror(r, mres[0])
     mn, oks = mres[0]
     seen, chk = [], {}
     for k, opt in r[1]:
         if opt and opt[0] not in seen:
             seen.append(opt[0])
-            chk[len(seen) - 1] = mres[len(seen)]
+            chk[len(seen) - 1] = mres[1 + len(seen)]
     for (k, opt), okk in zip(r[1], oks):
         if okk == 1:
             continue
@@ -418,10 +451,30 @@ def judge(c, r, mres):
                           % (k, why, mn)}
     if len(oks) != len(r[1]):
         return {"kind": "broken-correspondence", "reason": "model answered %d verdicts for %d calls" % (len(oks), len(r[1]))}
+    return judge_mirror(r, mres[1])
+
+
+def judge_mirror(r, algo):
+    """the implementation and the mirror bf_algo (Model/PartitionAlgo.v; bf_sound / bf_complete_min talk about it) agree
+    on None-ness and on the number of axes for every k; which partition is returned is only counted (stats)"""
+    if len(algo) != len(r[1]):
+        return {"kind": "broken-correspondence", "reason": "mirror answered %d results for %d calls" % (len(algo), len(r[1]))}
+    for (k, opt), a in zip(r[1], algo):
+        if bool(opt) != bool(a) or (opt and len(opt[0]) != len(a[0])):
+            return {"kind": "mismatch", "theorem": "bf_sound / bf_complete_min (mirror Model/PartitionAlgo.v)",
+                    "reason": "k_alternative_partition_brut_force(instance, k=%d) returned %s but its mirror bf_algo returns %s"
+                              % (k, ("%d axes %r" % (len(opt[0]), opt[0])) if opt else "None",
+                                 ("%d axes %r" % (len(a[0]), a[0])) if a else "None")}
     return None
 
 
+def mirror_exact(r, algo):
+    return all((not opt and not a) or (opt and a and opt[0] == a[0]) for (k, opt), a in zip(r[1], algo))
+
+
 def _opt(c, r, m):
+    if c["op"] == "c18.algo":
+        return None
     if c["op"] == "c18.approx":
         return m[0] if c["payload"][3] == 1 and m else None
     if m and isinstance(m[0], list):
@@ -431,6 +484,8 @@ def _opt(c, r, m):
 
 def nontrivial(c, r, m):
     mn = _opt(c, r, m)
+    if c["op"] == "c18.algo":
+        return isinstance(r, list) and r[0] == 0 and any(opt and len(opt[0]) >= 2 for k, opt in r[1])
     if mn is None:      # large approx case: no reference; count it when more than one axis came back
         return isinstance(r, list) and r[0] == 0 and len(r[1]) >= 2
     return mn >= 2
@@ -443,6 +498,13 @@ def stats(c, r, m):
     lab = []
     mn = _opt(c, r, m)
     okr = isinstance(r, list) and r[0] == 0
+    if c["op"] == "c18.algo":
+        lab.append("algo-only m=9-14")
+        if okr and m:
+            lab.append("mirror: same partition for every k" if mirror_exact(r, m[0]) else "mirror: same size, other partition")
+            lab.extend(["algo-only answer None"] * sum(1 for k, opt in r[1] if not opt))
+            lab.extend(["algo-only answer %d axes" % len(opt[0]) for k, opt in r[1] if opt][:1])
+        return lab
     if c["op"] == "c18.approx":
         lab.append("approx %s" % size)
         if okr:
@@ -461,6 +523,8 @@ def stats(c, r, m):
                 lab.append("bf optimum = ceil(m/2)")
                 if mm % 2:
                     lab.append("bf optimum = (m+1)/2, m odd (defect 07cd506 region)")
+        if okr and len(m) > 1 and isinstance(m[1], list):
+            lab.append("mirror: same partition for every k" if mirror_exact(r, m[1]) else "mirror: same size, other partition")
         if okr:
             nn = sum(1 for k, opt in r[1] if not opt)
             lab.extend(["bf answer None"] * nn)
@@ -476,7 +540,8 @@ def stats(c, r, m):
 
 def describe(c):
     alts, rankings, mults = c["payload"][0], c["payload"][1], c["payload"][2]
-    d = {"function": "k_alt_partition_approx" if c["op"] == "c18.approx" else "k_alternative_partition_brut_force",
+    d = {"function": "k_alt_partition_approx" if c["op"] == "c18.approx" else "k_alternative_partition_brut_force"
+                     + (" (mirror only)" if c["op"] == "c18.algo" else ""),
          "alternatives": alts, "orders (best first)": rankings, "multiplicities": mults}
     if c["op"] == "c18.bf":
         d["k values"] = c["payload"][3]
@@ -485,7 +550,7 @@ def describe(c):
 
 def shrink(c):
     alts, rankings, mults, last = c["payload"]
-    if c["op"] == "c18.bf" and len(last) > 1:
+    if c["op"] in ("c18.bf", "c18.algo") and len(last) > 1:
         for k in last:
             yield dict(c, payload=[alts, rankings, mults, [k]])
     if len(rankings) > 1:
